@@ -49,6 +49,8 @@ func loadDir(repo, dir string) []srcFile {
 	return out
 }
 
+func printerFprint(sb *strings.Builder, n any) error { return printer.Fprint(sb, fset, n) }
+
 func exprString(e ast.Expr) string {
 	var sb strings.Builder
 	_ = printer.Fprint(&sb, fset, e)
